@@ -172,14 +172,14 @@ impl Prop for C10 {
         ));
         // as U ---------------------------------------------------------------------------
         {
-            let conns: Vec<&'static str> = vec!["as"];
+            let conns: Vec<&'static str> = vec!["as", "in", "to", "into"];
             f.push(Family::new(
                 "as-unit",
                 Mode::Full,
-                "'D as|in|to|into U' for D over one- and two-part durations (all units x N in [1, 2, 59, 60, 100]) and U in seconds/minutes/hours/days/weeks (singular and plural word): D rounded down to whole U",
+                "'D as|in|to|into U' for D over one- and two-part durations (all units x N in [1, 2, 59, 60, 100, 10^4, 10^5, 10^6], i.e. magnitudes beyond 2^31 and 2^32 seconds) and U in seconds/minutes/hours/days/weeks (singular and plural word): D rounded down to whole U",
                 move |ch| {
                     let u = *ch.pick(&UNITS);
-                    let c = *ch.pick(&[1i64, 2, 59, 60, 100]);
+                    let c = *ch.pick(&[1i64, 2, 59, 60, 100, 10_000, 100_000, 1_000_000]);
                     let two = ch.flag();
                     let (s, p) = u.words("en");
                     let mut t = format!("{} {}", c, if c == 1 { s } else { p });
